@@ -410,7 +410,7 @@ pub fn real_own_single(_u: &Unimock, _x: u8) -> Tracked {
     Tracked::new(&tl_tracker(), 3_000_000 + tl_val_id() % 1_000_000)
 }
 
-#[unimock(api = OwnMock, unmock_with = [real_own_single, _, _, _, _, _, _, _, _, _, _, _])]
+#[unimock(api = OwnMock, unmock_with = [real_own_single, _, _, _, _, _, _, _, _, _, _, _, _])]
 pub trait Own {
     fn own_single(&self, x: u8) -> Tracked;
     fn own_multi(&self, x: u8) -> TrackedC;
@@ -424,6 +424,7 @@ pub trait Own {
     fn own_deep_poll(&self, x: u8) -> std::task::Poll<Result<&u32, Tracked>>;
     fn own_poll_multi(&self, x: u8) -> std::task::Poll<Result<&u32, TrackedC>>;
     fn own_opt_multi(&self, x: u8) -> Option<Result<&u32, TrackedC>>;
+    fn own_unit(&self, x: u8);
 }
 
 // ---------------------------------------------------------------------------------------------
@@ -597,6 +598,7 @@ pub fn type_ids() -> &'static Vec<(TypeId, M)> {
             (TypeId::of::<OwnMock::own_deep_poll>(), M::OwnDeepPoll),
             (TypeId::of::<OwnMock::own_poll_multi>(), M::OwnPollMulti),
             (TypeId::of::<OwnMock::own_opt_multi>(), M::OwnOptMulti),
+            (TypeId::of::<OwnMock::own_unit>(), M::OwnUnit),
             (TypeId::of::<AsyncAMock::af>(), M::Af),
             (TypeId::of::<AsyncAMock::ag>(), M::Ag),
             (TypeId::of::<AsyncAMock::ai>(), M::Ai),
